@@ -395,7 +395,7 @@ func (e *Engine) parseContractLines(p *packages.Package, file string, lines []st
 				continue
 			}
 			cur.Cases = append(cur.Cases, CaseDef{Name: nm, LHS: l, RHS: rr})
-		case "requires", "ensures", "panics_when":
+		case "requires", "ensures", "panics_when", "assumes":
 			if cur == nil {
 				fail("clause outside func", t)
 				continue
